@@ -25,6 +25,7 @@
 #include <cstring>
 #include <cmath>
 #include <functional>
+#include <csignal>
 
 extern "C" void __sanitizer_set_death_callback(void (*callback)(void));
 
@@ -50,6 +51,8 @@ void on_death() {
     if (f) { fputs(g_poison_key.c_str(), f); fputc('\n', f); fclose(f); }
   }
 }
+// UBSan (a separate runtime in gcc) is run with abort_on_error=1: its report ends in SIGABRT
+void on_sigabrt(int) { on_death(); _exit(78); }
 void on_terminate() {
   if (g_tr) {
     std::string l = "{\"e\":\"Abort\",\"ty\":\"" + g_ty + "\",\"sanitizer\":false" + (g_cur.empty() ? "" : "," + g_cur) + "}";
@@ -359,6 +362,7 @@ int main(int argc, char** argv) {
   if (!getenv("VERIF_STDERR")) { if (!freopen("/dev/null", "w", stderr)) {} }
   __sanitizer_set_death_callback(c11::on_death);
   std::set_terminate(c11::on_terminate);
+  signal(SIGABRT, c11::on_sigabrt);
   const std::string mode = argv[1], ty = argv[2];
   if (mode == "bfs" && argc >= 7) {
     const int depth = atoi(argv[4]); const int K = argc > 7 ? atoi(argv[7]) : 2;
